@@ -1,0 +1,75 @@
+//go:build verif
+
+// Contracts for the deductive verifier in /verif (comment-only; compiled only with -tags verif).
+
+package submission
+
+// request: a log is asked at most once. It answers true only when no result entry existed for the
+// log (and leaves a non-nil entry behind), so a second call for the same log answers false.
+//@ func (*safeSubmissionState).request
+//@ props C17
+//@ arith int
+//@ requires sub != nil && sub.results != nil && sub.cancels != nil && distinct(sub.results, sub.cancels)
+//@ ensures [true-only-for-the-first-request-of-that-log] result ==> !(old(has(sub.results, logURL)) && old(sub.results[logURL]) != nil)
+//@ ensures [the-log-is-marked-requested-from-now-on] has(sub.results, logURL) && sub.results[logURL] != nil
+//@ ensures [already-requested-logs-are-refused-and-nothing-changes] old(has(sub.results, logURL)) && old(sub.results[logURL]) != nil ==> !result && sub.results[logURL] == old(sub.results[logURL])
+//@ ensures [cancel-function-kept-exactly-for-accepted-requests] result ==> has(sub.cancels, logURL)
+
+//@ func (*safeSubmissionState).groupComplete
+//@ props C17
+//@ arith int
+//@ requires sub != nil
+//@ ensures [complete-means-no-sct-still-needed] result <==> (!has(sub.groupNeeds, groupName) || sub.groupNeeds[groupName] <= 0)
+
+//@ func postInterval
+//@ props C17
+//@ arith int
+//@ pure
+//@ ensures [the-first-parallel-start-requests-go-out-at-once] idx < parallelStart ==> result == 0
+
+// The per-log goroutine of a group race: the chain is sent to the log only after request() accepted
+// this log (once per log across all groups), never when the group is already complete, and whatever
+// the log answers is reported to the state for that same log.
+//@ func groupRace$2
+//@ props C17
+//@ site groupComplete#1 as gc
+//@ site request#1 as rq
+//@ site SubmitToLog#1 as sub
+//@ site setResult#1 as sr
+//@ requires state != nil && state.results != nil && state.cancels != nil && group != nil && submitter != nil && subCtx != nil && countCall != nil && cancel != nil && distinct(state.results, state.cancels) && state.groupNeeds != nil
+//@ stable-field state.results state.cancels state.groupNeeds
+//@ ensures [nothing-is-sent-unless-this-log-was-accepted-for-the-first-time] sub.called ==> gc.called && !gc.res && rq.called && rq.res
+//@ ensures [every-answer-is-reported] sub.called ==> sr.called
+//@ at rq assert [asks-for-this-log] rq.logURL == logURL && rq.sub == state
+//@ at sub assert [sends-this-chain-to-this-log] sub.logURL == logURL && sub.chain == chain && sub.asPreChain == asPreChain
+//@ at sr assert [reports-the-logs-own-answer] sr.logURL == logURL && sr.sct == sub.res0 && sr.err == sub.res1 && sr.sub == state
+
+//@ func newSafeSubmissionState
+//@ props C17
+//@ arith int
+//@ site GroupByLogs#1 as gbl
+//@ requires forall n string :: has(groups, n) ==> groups[n] != nil
+//@ loop 1 invariant forall n string :: has(groups, n) ==> groups[n] != nil
+//@ fresh result
+//@ ensures [fresh-state-with-empty-result-and-cancel-tables] result != nil && result.results != nil && result.cancels != nil && result.groupNeeds != nil && distinct(result.results, result.cancels) && (forall u string :: !has(result.results, u) && !has(result.cancels, u))
+//@ ensures [log-to-group-table-is-the-inverse-of-the-policy-groups] result.logToGroups == gbl.res
+//@ at gbl assert [of-these-groups] gbl.lg == groups
+
+// setResult, failure case: only that log's entry is replaced, no group's need changes.
+//@ func (*safeSubmissionState).setResult
+//@ props C17
+//@ arith int
+//@ requires sub != nil && sub.results != nil && sub.cancels != nil && sub.groupNeeds != nil && distinct(sub.results, sub.cancels)
+//@ requires has(sub.results, logURL) && sub.results[logURL] != nil
+//@ may panic
+//@ note the SCT branch iterates over maps while updating them; only the failure branch is specified here
+//@ ensures [a-failed-submission-records-the-error-and-changes-no-groups-need] sct == nil ==> sub.results[logURL] != nil && sub.results[logURL].sct == nil && sub.results[logURL].err == err && (forall g string :: has(sub.groupNeeds, g) <==> old(has(sub.groupNeeds, g))) && (forall g string :: has(sub.groupNeeds, g) ==> sub.groupNeeds[g] == old(sub.groupNeeds[g]))
+
+// collectSCTs: everything returned is a recorded SCT of the log it is attributed to.
+//@ func (*safeSubmissionState).collectSCTs
+//@ props C17
+//@ arith int
+//@ requires sub != nil
+//@ loop 1 invariant sub.results == old(sub.results)
+//@ loop 1 invariant forall k int :: 0 <= k && k < len(scts) ==> scts[k] != nil && scts[k].SCT != nil && has(sub.results, scts[k].LogURL) && sub.results[scts[k].LogURL] != nil && sub.results[scts[k].LogURL].sct == scts[k].SCT
+//@ ensures [every-returned-sct-is-recorded-for-its-log] forall k int :: 0 <= k && k < len(result) ==> result[k] != nil && result[k].SCT != nil && has(sub.results, result[k].LogURL) && sub.results[result[k].LogURL] != nil && sub.results[result[k].LogURL].sct == result[k].SCT
